@@ -611,6 +611,11 @@ class Interp:
         raise OutOfSubset("unpack of %r" % (v,))
 
     def set_attr(self, st, obj, attr, v):
+        sh = self.ctx.config.get("setattr_hook")
+        if sh:
+            r = sh(self, st, obj, attr, v)
+            if r is not None:
+                return r
         if isinstance(obj, ObjVal):
             w = self.ctx.config.get("write_hook")
             if w:
